@@ -24,6 +24,9 @@ def to_actions(script, T):
     out = []
     for a in script:
         k = a[0]
+        if k == "combo":
+            out.append(("combo", to_actions(a[1], T)))
+            continue
         if k in ("drop",):
             out.append(("drop",))
         elif k in ("answer", "garbage", "short", "bad", "eof"):
